@@ -11,7 +11,11 @@ CKM_ALT = "0.95 0.30 0.08660254 0.30 0.94 0.16155494 0.08660254 0.16155494 0.983
 
 # coordinate -> list of (card, key, value) settings per value id (id 0 = base)
 COORDS = {
-    "grid": [dict(n=12, deg=4), dict(n=16, deg=3)],
+    # the interpolation: nodes (same number of other nodes / another number of nodes), polynomial degree, log mode - each its own
+    # coordinate, so that a module-level memo keyed by any proper part of (nodes, degree, mode) meets a single-coordinate neighbour
+    "grid": [dict(n=12, xmin=1e-3), dict(n=12, xmin=4e-3), dict(n=16, xmin=1e-3)],
+    "deg": [dict(deg=4), dict(deg=3)],
+    "log": [dict(ob=dict(interpolation_is_log=True)), dict(ob=dict(interpolation_is_log=False))],
     "mc": [dict(th=dict(mc=1.51, Qmc=1.51)), dict(th=dict(mc=2.0, Qmc=2.0))],
     "mb": [dict(th=dict(mb=4.92, Qmb=4.92)), dict(th=dict(mb=4.5, Qmb=4.5))],
     "fns": [dict(th=dict(FNS="FFNS")), dict(th=dict(FNS="ZM-VFNS")), dict(th=dict(FNS="FFN0")), dict(th=dict(FNS="FONLL-A"))],
@@ -47,7 +51,7 @@ def cards_of(cfg):
         th.update(s.get("th", {}))
         ob.update(s.get("ob", {}))
     theory = cards.theory(**th)
-    obs = cards.obs(plan_of(cfg), n=g["n"], deg=g["deg"], **ob)
+    obs = cards.obs(plan_of(cfg), xgrid=cards.make_grid(g["n"] // 2, g["n"] - g["n"] // 2, x_min=g["xmin"]), deg=COORDS["deg"][cfg["deg"]]["deg"], **ob)
     return theory, obs
 
 
